@@ -197,7 +197,7 @@ func (e *Engine) chanRecv(p *Path, c ChanV, elem types.Type, depth int, commaOk 
 			}
 			// would block: run one pending task to completion
 			if len(st.tasks) == 0 {
-				panic(blockedErr{"receive would block forever (no pending goroutine can deliver)"})
+				panic(blockedErr{"receive would block forever (no pending goroutine can deliver)", st.G})
 			}
 			sts := e.runOneTask(st, depth)
 			if len(sts) == 0 {
@@ -210,7 +210,10 @@ func (e *Engine) chanRecv(p *Path, c ChanV, elem types.Type, depth int, commaOk 
 	return out
 }
 
-type blockedErr struct{ why string }
+type blockedErr struct {
+	why string
+	g   *Term // path condition under which nothing can make progress
+}
 
 // runOneTask runs one pending task of st to completion: the oldest one that can complete.  A task that would
 // block forever (it waits for something only a goroutine further up the call stack can provide) is rolled
@@ -261,7 +264,7 @@ func (e *Engine) runOneTask(st *State, depth int) []*State {
 		}
 		return out
 	}
-	panic(blockedErr{"no pending goroutine can make progress"})
+	panic(blockedErr{"no pending goroutine can make progress", st.G})
 }
 
 func (e *Engine) runPending(p *Path, depth int) []Result {
